@@ -214,7 +214,7 @@ func init() {
 	}
 	checks["C20"] = &CheckDef{
 		Pkgs: []string{"./cmd", "./component/outbound/dialer"},
-		Harness: []string{"cmd:Verif_C20_protocol", "component/outbound/dialer:Verif_C20_suppression", "component/outbound/dialer:Verif_C20_suppression_threads"},
+		Harness: []string{"cmd:Verif_C20_protocol", "cmd:Verif_C20_retirement", "component/outbound/dialer:Verif_C20_suppression", "component/outbound/dialer:Verif_C20_suppression_threads"},
 		CFG: []CFGCheck{
 			{Name: "every way round the reload worker's loop either releases the pending request or hands it off, exactly once", Pkg: "cmd", Contains: ".coalesceReloadRequest", RangeOver: "reloadRequest",
 				Release: []string{"cmd.clearReloadPending", ".finishReloadFailure", ".finishReloadSuccess", ".beginHandoff"}},
@@ -223,11 +223,11 @@ func init() {
 		},
 		MaxIter: 200,
 		Level:   "other",
-		LevelText: "Three parts. (1) The reload manager's real entry points (tryQueueReloadRequest, coalesceReloadRequest, clearReloadPending, releaseReloadPendingAfterRetirement, finishReloadFailure, finishReloadSuccess, takePendingRetirementDone, restore/clearRejectedReloadProgress) run as goroutines under the engine's schedule exploration: a signal goroutine sending three reload/suspend requests, the worker leaving through any of its four kinds of exit (early failure, late failure, success, success with a pending retirement), the retirement goroutine and the release goroutine; every interleaving at blocking operations plus up to one preemption at any atomic / channel / mutex operation; the schedule and the exits are symbolic inputs enumerated by the solver. Obligations: a request is accepted only while nothing is in progress or retiring; a refused request is reported busy and leaves queue and muting untouched; once settled the muting is lifted, the flags are clear and a new request is accepted and processed. (2) The muting counter itself (Begin/EndReloadProxyFailureSuppression, proxyFailureSuppressedForReload): arbitrary begin/end sequences and two concurrent ends under <=2 preemptions. (3) Two solver queries over the control-flow graph of the real (*Runner).Run: every walk through one iteration of the reload worker's loop, and every walk by which the main loop completes a handed-off reload, calls exactly one of the release / hand-off functions (conditions abstracted to free choices; unsat = no walk of up to 2x|blocks| steps with a different count).",
+		LevelText: "Three parts. (1) The reload manager's real entry points (tryQueueReloadRequest, coalesceReloadRequest, clearReloadPending, releaseReloadPendingAfterRetirement, finishReloadFailure, finishReloadSuccess, takePendingRetirementDone, restore/clearRejectedReloadProgress) run as goroutines under the engine's schedule exploration: a signal goroutine sending three reload/suspend requests, the worker leaving through any of its four kinds of exit (early failure, late failure, success, success with a pending retirement), the retirement goroutine and the release goroutine; every interleaving at blocking operations plus up to one preemption at any atomic / channel / mutex operation; the schedule and the exits are symbolic inputs enumerated by the solver. Obligations: a request is accepted only while nothing is in progress or retiring; a refused request is reported busy and leaves queue and muting untouched; once settled the muting is lifted, the flags are clear and a new request is accepted and processed. (2) The muting counter itself (Begin/EndReloadProxyFailureSuppression, proxyFailureSuppressedForReload): arbitrary begin/end sequences and two concurrent ends under <=2 preemptions. (2b) Retirement of the previous generation (retireControlPlaneConnections / waitForControlPlaneDrain) with a session that never goes idle, any remaining budget including zero, abort requested or not, dialer overlap or not, timers free to fire: it always ends and aborts what is left. (3) Two solver queries over the control-flow graph of the real (*Runner).Run: every walk through one iteration of the reload worker's loop, and every walk by which the main loop completes a handed-off reload, calls exactly one of the release / hand-off functions (conditions abstracted to free choices; unsat = no walk of up to 2x|blocks| steps with a different count).",
 		LevelNote: "Trusted: go/ssa, executor and its cooperative thread model (preemption only at synchronisation operations: data-race-free code assumed), z3. The worker in part (1) is a skeleton written in the harness that calls the real manager functions at each exit; part (3) ties that skeleton to the real loop. Control-plane construction, listeners, retirement draining and signal delivery are not executed.",
 		Technique: techniqueText,
 		Explanation: "Bounded schedule exploration of the reload manager with symbolic schedules, plus control-flow-graph path queries over (*Runner).Run.",
-		Bounds: map[string]string{"quick": "2 signals with a free switch point between them + 1 follow-up request, 3 worker exits per request (early failure, success, success with retirement), <=1 preemption (plus all orders at blocking points); counter: 4 begin/end operations, 2 concurrent ends with <=2 preemptions; CFG walks of <= 2x|blocks| steps (132 and 80)", "thorough": "3 signals, 4 exits, <=2 preemptions (explores what the 20-minute budget allows; reported INCOMPLETE beyond it); 6 begin/end operations"},
+		Bounds: map[string]string{"quick": "2 signals with a free switch point between them + 1 follow-up request, 3 worker exits per request (early failure, success, success with retirement), <=1 preemption (plus all orders at blocking points); counter: 4 begin/end operations, 2 concurrent ends with <=2 preemptions; CFG walks of <= 2x|blocks| steps (132 and 80)", "thorough": "2 signals with a free switch point, 4 exits, <=2 preemptions (about 950k schedules, 15 min); 6 begin/end operations"},
 		Outside: []string{"the body of each reload stage (config load, control-plane construction, listener hand-over, retirement drain)", "OS signal delivery and coalescing in the runtime", "more than three signals in flight", "data races on non-atomic variables"},
 		Assumptions: []string{"goroutines switch only at synchronisation operations (channel, mutex, atomic, sync.Map, timers)", "progress file replaced by a variable; suppression hooks in package cmd replaced by counters (the real counter is checked in part 2)", "CFG queries: branch conditions are free, so an infeasible walk could be reported (none is on the current tree)"},
 		QuickBudget: 10 * time.Minute, ThoroughBudget: 20 * time.Minute,
@@ -264,15 +264,15 @@ func init() {
 	}
 	checks["C09"] = &CheckDef{
 		Pkgs: []string{"./control"}, Splice: true,
-		Harness: []string{"control:Verif_C09_forwarder_lifetime", "control:Verif_C09_cached_reply_id", "control:Verif_C09_udp_upstream_id", "control:Verif_C09_singleflight"},
+		Harness: []string{"control:Verif_C09_forwarder_lifetime", "control:Verif_C09_cached_reply_id", "control:Verif_C09_udp_upstream_id", "control:Verif_C09_singleflight", "control:Verif_C09_pipelined"},
 		MaxIter: 2000,
 		Level:   "other",
-		LevelText: "Three clauses of the property on the real code. (1) 'A retired upstream connection is closed exactly once, after its last in-flight query': cachedDnsForwarder.beginUse / endUse / retire / closeNow with two borrowing queries and a retirement as goroutines under schedule exploration (every interleaving at blocking points plus up to two preemptions at any atomic operation, schedules as symbolic inputs): an admitted query never sees its forwarder closed, the forwarder is closed exactly once when retired and idle, a retired forwarder admits nobody. (2) 'Each reply carries that client's transaction ID': DnsController.writeCachedResponse on an arbitrary packed answer (12-20 symbolic bytes, and a 1030-byte answer beyond the pooled buffer) and an arbitrary client ID: the datagram sent is the cached answer with exactly the first two bytes replaced, from the queried server's address to the client, and the cached bytes are untouched. (3) 'Whatever an upstream does (answer late, twice, for a different question)': DoUDP.ForwardDNS with the real connection pool against a model socket delivering up to three datagrams with arbitrary IDs: exactly the first datagram carrying the request's ID is returned, none is made up otherwise. (4) Concurrent identical questions: two clients call the real HandleWithResponseWriter_ at the same time (real x/sync singleflight, resolution replaced by a yielding stub returning an uncacheable NXDOMAIN), all interleavings at blocking operations: both are served exactly once under their own symbolic IDs and the replies are separate message objects. A genuine defect was found with this check and repaired (see known_findings.json): endUse could close a retired forwarder under a query admitted just before the retirement.",
-		LevelNote: "Partial claim. Not covered: TCP pipelining with ID reuse, UDP->TCP fallback, caching under the right key - the last is covered from the cache side by C07/C08). Trusted: go/ssa, executor and its thread model (switches only at synchronisation operations), z3, miekg/dns Pack/Unpack as executed.",
+		LevelText: "Three clauses of the property on the real code. (1) 'A retired upstream connection is closed exactly once, after its last in-flight query': cachedDnsForwarder.beginUse / endUse / retire / closeNow with two borrowing queries and a retirement as goroutines under schedule exploration (every interleaving at blocking points plus up to two preemptions at any atomic operation, schedules as symbolic inputs): an admitted query never sees its forwarder closed, the forwarder is closed exactly once when retired and idle, a retired forwarder admits nobody. (2) 'Each reply carries that client's transaction ID': DnsController.writeCachedResponse on an arbitrary packed answer (12-20 symbolic bytes, and a 1030-byte answer beyond the pooled buffer) and an arbitrary client ID: the datagram sent is the cached answer with exactly the first two bytes replaced, from the queried server's address to the client, and the cached bytes are untouched. (3) 'Whatever an upstream does (answer late, twice, for a different question)': DoUDP.ForwardDNS with the real connection pool against a model socket delivering up to three datagrams with arbitrary IDs: exactly the first datagram carrying the request's ID is returned, none is made up otherwise. (4) Concurrent identical questions: two clients call the real HandleWithResponseWriter_ at the same time (real x/sync singleflight, resolution replaced by a yielding stub returning an uncacheable NXDOMAIN), all interleavings at blocking operations: both are served exactly once under their own symbolic IDs and the replies are separate message objects. (5) The pipelined TCP upstream (newPipelinedConn, readLoop, RoundTrip, idBitmap, responseSlot) over a model stream: two queries in flight, a stray reply under an ID the connection never issued (including the two that alias a genuine ID above the table's 12 index bits) followed by the genuine replies in either order: each query gets exactly its own reply. A genuine defect was found with this check and repaired (see known_findings.json): endUse could close a retired forwarder under a query admitted just before the retirement.",
+		LevelNote: "Partial claim. Not covered: pipelining timeouts / ID reuse after cancellation with ID reuse, UDP->TCP fallback, caching under the right key - the last is covered from the cache side by C07/C08). Trusted: go/ssa, executor and its thread model (switches only at synchronisation operations), z3, miekg/dns Pack/Unpack as executed.",
 		Technique: techniqueText,
 		Explanation: "Bounded symbolic execution and schedule exploration of DNS reply ID handling, upstream ID filtering and forwarder lifetime.",
 		Bounds: map[string]string{"quick": "2 borrowers + 1 retire, <=2 preemptions; cached answers of 12/16/20 symbolic bytes, symbolic 16-bit IDs; 1-3 upstream datagrams with symbolic IDs; 2 concurrent clients on one uncached question", "thorough": "same (3 preemptions are out of reach within the budget)"},
-		Outside: []string{"the UDP packet-send branch after singleflight (needs sendPkt)", "pipelined TCP / DoT / DoH / DoQ forwarders", "UDP to TCP fallback", "ID collisions between concurrent clients on one pooled socket (each borrower owns its socket while it waits)"},
+		Outside: []string{"the UDP packet-send branch after singleflight (needs sendPkt)", "DoH / DoQ forwarders, pipelined connection pool scaling", "UDP to TCP fallback", "ID collisions between concurrent clients on one pooled socket (each borrower owns its socket while it waits)"},
 		Assumptions: []string{"goroutines switch only at synchronisation operations", "sendPkt replaced by a recorder; the upstream socket is a model that returns the given datagrams then times out"},
 		QuickBudget: 10 * time.Minute, ThoroughBudget: 20 * time.Minute,
 	}
